@@ -755,6 +755,8 @@ def check_roundtrip_batch(ctx, drv, cases, tag):
       rec['fail'] = rec['fail'] or ('statedict-roundtrip-raises', f'from_state_dict(t, to_state_dict(t)) raised {r_rt[1:]}')
     elif norm(describe(r_rt[1])) != nD:
       rec['fail'] = rec['fail'] or ('statedict-roundtrip-differs', 'from_state_dict(t, to_state_dict(t)) differs from t')
+    elif skeleton_differs(obj, r_rt[1]):
+      rec['fail'] = rec['fail'] or ('statedict-roundtrip-skeleton', 'from_state_dict(t, to_state_dict(t)): ' + skeleton_differs(obj, r_rt[1]))
     results = {}
     for T in case['T']:
       with threshold(T):
@@ -773,6 +775,8 @@ def check_roundtrip_batch(ctx, drv, cases, tag):
       results[T] = norm(describe(r_fb[1]))
       if results[T] != nD:
         rec['fail'] = rec['fail'] or ('bytes-roundtrip-differs', f'from_bytes(t, to_bytes(t)) differs from t (threshold {T})')
+      elif skeleton_differs(obj, r_fb[1]):
+        rec['fail'] = rec['fail'] or ('bytes-roundtrip-skeleton', f'from_bytes(t, to_bytes(t)) (threshold {T}): ' + skeleton_differs(obj, r_fb[1]))
       # restoring under a different threshold than the one used for saving
       r_fb2 = call(serialization.from_bytes, obj, r_b[1])
       if r_fb2[0] != 'ok' or norm(describe(r_fb2[1])) != nD:
@@ -883,6 +887,52 @@ def check_roundtrip_batch(ctx, drv, cases, tag):
       ctx.violation(tag + 'roundtrip-model-mismatch', mism + f' — tree {str(rec["nD"])[:300]}', case, concrete=False)
 
 
+def _plain_all_the_way(d):
+  return type(d) is dict and all(_plain_all_the_way(v) for v in d.values() if isinstance(v, (dict, FrozenDict)))
+
+
+def frozen_clean(x):
+  """every FrozenDict reachable in `x` unfreezes to plain dicts all the way down (no FrozenDict object
+  left inside another one's storage). Returns None or what is wrong."""
+  from flax.core import unfreeze
+
+  if isinstance(x, FrozenDict):
+    if not _plain_all_the_way(unfreeze(x)):
+      return 'unfreeze(restored) still contains a FrozenDict'
+    subs = [v for _, v in x.items()]
+  elif isinstance(x, dict):
+    subs = list(x.values())
+  elif isinstance(x, (list, tuple)):
+    subs = list(x)
+  elif is_struct(x):
+    subs = [getattr(x, f.name) for f in dataclasses.fields(x) if f.metadata.get('pytree_node', True)]
+  else:
+    return None
+  for v in subs:
+    r = frozen_clean(v)
+    if r:
+      return r
+  return None
+
+
+def skeleton_differs(target, restored):
+  """'same structure and container types': for a restore that puts the saved leaves back, the result
+  must have the target's pytree structure (container type at every level, as JAX sees it), zip with
+  it under tree_map, and hold clean FrozenDicts. Returns None or what is wrong."""
+  try:
+    s0 = jax.tree_util.tree_structure(target)
+    s1 = jax.tree_util.tree_structure(restored)
+  except Exception as e:  # noqa: BLE001
+    return f'tree_structure raised {type(e).__name__}'
+  if s0 != s1:
+    return f'jax tree structure of the restored tree differs from the target: {str(s1)[:160]} vs {str(s0)[:160]}'
+  try:
+    jax.tree_util.tree_map(lambda a, b: None, target, restored)
+  except Exception as e:  # noqa: BLE001
+    return f'tree_map over (target, restored) raised {type(e).__name__}: {str(e)[:120]}'
+  return frozen_clean(restored)
+
+
 LEGACY = {'name', 'fields', 'values'}
 
 
@@ -947,6 +997,10 @@ def check_restore_batch(ctx, drv, cases, tag):
     r_after = call(serialization.from_state_dict, tgt, serialization.to_state_dict(tgt))
     if r_after[0] != 'ok' or norm(describe(r_after[1])) != norm(D):
       rec['fail'] = rec['fail'] or ('restore-after-error', f'a plain round trip right after this restore fails: {str(r_after)[:200]}')
+    elif skeleton_differs(tgt, r_after[1]):
+      rec['fail'] = rec['fail'] or ('statedict-roundtrip-skeleton', 'from_state_dict(t, to_state_dict(t)): ' + skeleton_differs(tgt, r_after[1]))
+    if r[0] == 'ok' and frozen_clean(r[1]):
+      rec['fail'] = rec['fail'] or ('restore-frozen-not-clean', 'restored tree: ' + frozen_clean(r[1]))
     verdict = spec_verdict(D, case['state'])
     ctx.count('restore_spec_verdict', str(verdict))
     if verdict == 'reject' and r[0] == 'ok':
@@ -968,6 +1022,8 @@ def check_restore_batch(ctx, drv, cases, tag):
         rec['fail'] = rec['fail'] or ('harmless-edit-rejected-' + case['edit'], f'{case["edit"]} at {path} raised {r[1:]}')
       elif norm(describe(r[1])) != norm(D):
         rec['fail'] = rec['fail'] or ('misassigned-' + case['edit'], f'after {case["edit"]} at {path} the restored tree differs from the saved one (entries not matched by key)')
+      elif skeleton_differs(tgt, r[1]):
+        rec['fail'] = rec['fail'] or ('restore-skeleton-' + case['edit'], f'after {case["edit"]} at {path}: ' + skeleton_differs(tgt, r[1]))
     recs.append(rec)
     reqs.append(('from_state_dict', [D, case['state']]))
   outs = drv.run(reqs)
@@ -1288,6 +1344,12 @@ def small_targets():
                  'kv': [[hx(k), L(45 + i)] for i, k in enumerate(fs)]})
   fams.append({'t': 'struct', 'cls': 'TrainState', 'aux': 2, 'kv': [[hx('step'), L(3)], [hx('params'), {'t': 'fdict', 'kv': [[hx('w'), A]]}],
                [hx('opt_state'), {'t': 'tuple', 'xs': [{'t': 'named', 'cls': 'EmptyState', 'kv': []}]}]]})
+  # FrozenDict nested two and three levels deep, and inside list / namedtuple / dataclass
+  f1 = {'t': 'fdict', 'kv': [[hx('k'), A], [hx('b'), L(4)]]}
+  f2 = {'t': 'fdict', 'kv': [[hx('D0'), f1], [hx('D1'), {'t': 'fdict', 'kv': []}]]}
+  f3 = {'t': 'fdict', 'kv': [[hx('params'), f2], [hx('stats'), {'t': 'fdict', 'kv': [[hx('m'), f1]]}]]}
+  fams += [f2, f3, {'t': 'list', 'xs': [f2, L(1)]}, {'t': 'named', 'cls': 'P2', 'kv': [[hx('a'), f2], [hx('b'), L(2)]]},
+           {'t': 'struct', 'cls': 'Q1', 'aux': 4, 'kv': [[hx('a'), f3]]}, {'t': 'dict', 'kv': [[hx('v'), f2]]}]
   # one level of nesting: each container kind holding containers
   inner = [{'t': 'dict', 'kv': [[hx('a'), L(1)]]}, {'t': 'list', 'xs': [L(1), A]}, {'t': 'tuple', 'xs': []}, {'t': 'named', 'cls': 'P2', 'kv': [[hx('a'), L(1)], [hx('b'), A]]}]
   for x, y in itertools.product(inner, repeat=2):
